@@ -6,7 +6,8 @@ import re
 from facts import Facts
 from effects import World, effects, SESSION, CONNECTION
 from engine import AnchorLost
-from mir import callee_name, callee_resolved, strip_generics
+from mir import callee_name, callee_resolved, strip_generics, Body
+import flat as _flat
 
 VERIF = os.path.dirname(os.path.dirname(os.path.abspath(__file__)))
 
@@ -26,6 +27,7 @@ class Ctx:
             self.release = Ctx(release_facts_path, tier)
         self._spec = {}
         self._eff = {}
+        self._flat = {}
         self.analysed = {"bodies": set(), "blocks": 0, "call_sites": 0, "paths": 0}
 
     def spec(self, name):
@@ -60,22 +62,61 @@ class Ctx:
             self._eff[k] = effects(self.world, body, depth)
         return self._eff[k]
 
+    # ---------------------------------------------------------------- flattened views
+    # Role anchors that rules name explicitly: never inlined, so that a rule can still point at the call.
+    ANCHORS = re.compile(r"::(ack|validate_packet_size|handle_connack|session_expired|is_reconnect|retransmit|reset_session|"
+                         r"linear_search_by_key|tx_action_id|rx_action_id|next_packet_id|handle_packet|handle_message|set_up|new)$")
+
+    @staticmethod
+    def layer(path):
+        return path.lstrip("<").split("::")[0]
+
+    def flat(self, body, keep=None, inline=None):
+        """The body with crate-local helpers of the same layer (client / codec / core / io), awaited `async fn`
+        helpers, std Option/Result combinators and their closures inlined (rules/flat.py). `keep`: extra regex of
+        callee paths that must stay calls; `inline`: regex of anchors that should be inlined all the same."""
+        if body is None:
+            return None
+        key = (body.path, keep, inline)
+        if key not in self._flat:
+            lay = self.layer(body.path)
+            kre = re.compile(keep) if keep else None
+            ire = re.compile(inline) if inline else None
+
+            def kept(p, lay=lay, kre=kre, ire=ire):
+                q = p.replace("::{closure#0}", "") if p.endswith("::{closure#0}") else p
+                if self.layer(p) != lay:
+                    return True
+                if ire is not None and ire.search(q):
+                    return False
+                if kre is not None and kre.search(q):
+                    return True
+                return bool(self.ANCHORS.search(q))
+            fl = _flat.Flattener(self.facts, keep=kept)
+            fn = fl.flatten(body.path)
+            bad = _flat.validate(fn)
+            if bad:
+                raise AnchorLost("flattening of %s produced an inconsistent body: %s" % (body.path, bad[:3]))
+            b = Body(fn, self.facts)
+            self._flat[key] = b
+        return self.note(self._flat[key])
+
     def inbound_handler(self):
         """The coroutine that dispatches on a received RxPacket inside the context actor: the body
         (reachable from Context::run) that switches on the discriminant of an RxPacket parameter and
         performs Ack effects."""
-        return self.coroutine(r"client::context::Context::<[^>]*>::handle_packet")
+        return self.flat(self.coroutine(r"client::context::Context::<[^>]*>::handle_packet"))
 
     def outbound_handler(self):
-        return self.coroutine(r"client::context::Context::<[^>]*>::handle_message")
+        return self.flat(self.coroutine(r"client::context::Context::<[^>]*>::handle_message"))
 
     def run_body(self):
-        return self.coroutine(r"client::context::Context::<[^>]*>::run")
+        return self.flat(self.coroutine(r"client::context::Context::<[^>]*>::run"))
 
     def handle_ops(self):
         out = {}
         for name in ("disconnect", "ping", "publish", "subscribe", "unsubscribe"):
-            out[name] = self.coroutine(r"client::handle::ContextHandle::" + name)
+            out[name] = self.flat(self.coroutine(r"client::handle::ContextHandle::" + name), keep=r"client::opts::")
         return out
 
 
